@@ -8,7 +8,7 @@ RULE = ("cases = structured matrices with bushy and chain-like elimination trees
         "banded, chains, random) x panel 1..4 x relax 1..4 x nprocs 2..6 x controlled schedule (uniform / sticky / PCT with change points) "
         "or free-running with delays; oracle = history monitor over the SLU_MT_VERIF event stream of the real code: every update source "
         "supernode is pivoted+released before it is read (done-phase, busy-phase and in-panel updates), each (panel, source supernode) update "
-        "is applied at most once, at every scheduler take all not-yet-final descendant columns lie on the single busy chain the scheduler "
+        "is applied at most once, no thread rewrites the pruned subscript list of a supernode while another thread traverses that list (I3, from hooks at every list-traversal start in the DFS routines and around the rewrite in pxgstrf_pruneL, which are also yield points of the controlled scheduler), at every scheduler take all not-yet-final descendant columns lie on the single busy chain the scheduler "
         "reported and later waits only touch that chain, all descendants final before the inner factorization starts; plus the numerical "
         "consequence: C02 reconstruction bound on the returned factors. non-trivial = >=1 take with an unfinished busy chain whose wait "
         "actually blocked and >=1 prune while another thread's panel DFS was open; distinct = case text (incl. schedule seed)")
@@ -30,6 +30,10 @@ def c03_case(draw, nmin=4, nmax=60, pmax=6):
     s["panel"] = draw(st.sampled_from([1, 2, 2, 3, 4])); s["relax"] = draw(st.sampled_from([1, 1, 2, 3, 4]))
     if s["relax"] > s["maxsuper"]:
         s["maxsuper"] = s["relax"]
+    # finer schedule: also yield inside one interchange of pxgstrf_pruneL (reaches the listed finding D17); kept to a share of the
+    # cases so that the search continues behind it
+    if draw(st.integers(0, 3)) == 0:
+        s["yield_prune_inner"] = 1
     return case
 
 
@@ -41,7 +45,7 @@ def strategy(tier):
 
 def nontrivial(case, v):
     f = v.get("f", {})
-    return f.get("takes_with_busy", 0) >= 1 and f.get("blocked_waits", 0) >= 1 and f.get("prune_while_dfs", 0) >= 1
+    return f.get("takes_with_busy", 0) >= 1 and f.get("blocked_waits", 0) >= 1 and (f.get("prune_while_dfs", 0) >= 1 or f.get("prune_during_read", 0) >= 1)
 
 
 def classify(case, v):
@@ -50,6 +54,7 @@ def classify(case, v):
     if f.get("takes_with_busy", 0) >= 1: labs.append("take_with_unfinished_chain")
     if f.get("prune_while_dfs", 0) >= 1: labs.append("prune_while_other_dfs_open")
     if f.get("upd_busy", 0) >= 1: labs.append("busy_phase_update")
+    if f.get("prune_during_read", 0) >= 1: labs.append("prune_of_a_supernode_another_thread_is_traversing")
     return labs
 
 
